@@ -11,4 +11,9 @@ print("driver built in %.1fs" % extract.build_driver())
 th, n = extract.tree_hash()
 for c in extract.QUICK_CONFIGS:
     print(c, extract.extract(c, thash=th))
+# warm the compile-fail witnesses and the positive control (both cached by tree hash)
+from rules import witness, controls
+r = witness._run(th)
+print("witnesses:", {k: v["result"] for k, v in r["tests"].items()})
+print("control facts:", controls._facts("catch_unwind"))
 PY
